@@ -1,12 +1,14 @@
 """C12 - dissect matching equals its specification; ignore-case only adds matches."""
+import glob
 import json
 import os
+import re
 from vf import Inconclusive, parallel, require_clean, validate_traces, trace_slice, b2s
 
 CLAIM = {
-    "text": "Dissect.tla states the dissect matcher declaratively (pattern syntax with the three documented error classes and the name table; first occurrence of the leading literal, per token the first following occurrence of its trailing literal or the end of the line, skipped tokens, {0}, ordered offsets; ignore-case = case-sensitive result on ASCII-lower-cased pattern and line). TLC proves on the model, for every pattern of the plan (prefix in {'',a,aB,e-acute}, up to 3 tokens, trailing literals {'',:,::,B,e-acute}, capturing/skipped/unclosed/conflicting) and every line over {a,A,b,:,space,e-acute,E-acute} up to the bound plus lines woven around the pattern's literals and the full one-byte fold table: the parse is a sound and complete first-occurrence parse, the line reassembles from it, offsets are well-formed, ignore-case never loses a match and equals the lower-cased case-sensitive result on ASCII, print/parse round trip. DissectImpl.tla models CompileEx (first error wins), the indexIgnoreCase switch, the scan loop and the int pool as a state machine and TLC checks it refines Dissect and that handed-out index slices are disjoint and never change. Every (pattern, flag, line) of the generator is replayed with TLC's verdict on dissect.CompileEx + FindSubmatchIndex using one instance per pattern for thousands of calls (pool refilled repeatedly) with all retained results re-read at the end; random patterns/lines over the small alphabet, printable ASCII and arbitrary bytes (long-lived instances, late re-reads) and `rare filter -d ... [-I] -l -e` runs are recorded and validated by TLC against the specification.",
-    "note": "Bounded: exhaustive only within the stated pattern/line bounds; beyond that seeded random traces (lines up to ~300 bytes, up to 9 tokens). A bare % that opens no token, or a % inside a token name, is outside the domain (undocumented). For ignore-case over non-ASCII text the property (and the check) demands only well-formed offsets and 'matches whenever the case-sensitive matcher matches'. Concurrent use of one instance is not in scope (documented as not thread-safe). Trusted: Go strings.Index, TLC.",
-    "technique": "TLA+ specification + refinement model checking (TLC) + model-vector replay + trace validation",
+    "text": "Dissect.tla states the dissect matcher declaratively (pattern syntax with the three documented error classes and the name table; first occurrence of the leading literal, per token the first following occurrence of its trailing literal or the end of the line, skipped tokens, {0}, ordered offsets; ignore-case = case-sensitive result on ASCII-lower-cased pattern and line). TLC proves on the model, for every pattern of the plan (prefix in {'',a,aB,e-acute}, up to 3 tokens, trailing literals {'',:,::,B,e-acute}, capturing/skipped/unclosed/conflicting) and every line over {a,A,b,:,space,e-acute,E-acute} up to the bound plus lines woven around the pattern's literals and the full one-byte fold table: the parse is a sound and complete first-occurrence parse, the line reassembles from it, offsets are well-formed, ignore-case never loses a match and equals the lower-cased case-sensitive result on ASCII, print/parse round trip. DissectImpl.tla models CompileEx (first error wins), the indexIgnoreCase switch, the scan loop and the int pool (IntPool.Get one step per access to the pool header) as a state machine and TLC checks it refines Dissect, that handed-out index slices are disjoint and never change and that Get never slices beyond its slab. DissectShared.tla puts W such instances, all created from ONE compiled pattern and each owned by one worker goroutine, side by side and interleaves them step by step: with a pool per instance (the design) TLC proves Refines / Lifetime / Disjoint / NoPanic ACROSS instances, that matching never writes the compiled pattern, that a worker writes nothing but its own pool, and that the projection on every worker is a behaviour of DissectImpl (the instances are independent, the interleaving is irrelevant); the negative controls - one pool shared by all instances without a lock (each of the four invariants refuted), ignore-case literals lowered lazily inside the shared compiled pattern - are refuted, while a shared pool with non-overlapping calls or with Get under a mutex passes. Every (pattern, flag, line) of the generator is replayed with TLC's verdict on dissect.CompileEx + FindSubmatchIndex using one instance per pattern for thousands of calls (pool refilled repeatedly) with all retained results re-read at the end; random patterns/lines over the small alphabet, printable ASCII and arbitrary bytes (long-lived instances, late re-reads) and `rare filter -d ... [-I] -l -e` runs are recorded and validated by TLC against the specification. Concurrency: W in {2,4,8} goroutines (GOMAXPROCS >= 4), each creating its own instance of one compiled pattern after a common start signal, match 10^5..10^6 pool lines at the same time (also: fresh compiles with very short runs for first-use windows; case-sensitive and ignore-case compilations of one text side by side; extractor.New with 4/8 workers; `rare filter -d ... -w 4|8` over >= 10^5 lines); every distinct (line, result) pair observed - as returned and when re-read thousands of calls later and at the end - is validated by TLC, a process that dies twice is a recorded observation, and the same scenarios run in the -race build where a report with an access inside rare/pkg/matchers/dissect or rare/pkg/slicepool is a violation.",
+    "note": "Bounded: exhaustive only within the stated pattern/line bounds; beyond that seeded random traces (lines up to ~300 bytes, up to 9 tokens). A bare % that opens no token, or a % inside a token name, is outside the domain (undocumented). For ignore-case over non-ASCII text the property (and the check) demands only well-formed offsets and 'matches whenever the case-sensitive matcher matches'. Concurrent use of ONE instance by several goroutines is not in scope (documented as not thread-safe); several instances of one compiled pattern are. Concurrency on the real code is sampled (timing dependent); the race detector makes unsynchronised sharing visible independent of timing, but only on the paths the scenarios execute. The interleaving model is sequentially consistent. Trusted: Go strings.Index, TLC.",
+    "technique": "TLA+ specification + refinement model checking (TLC, incl. interleaved multi-instance model with negative controls) + model-vector replay + trace validation of sequential and concurrent executions + race detector",
 }
 
 
@@ -18,7 +20,37 @@ def gen_cfg(mode, lite, maxtok, maxsym, maxsym3):
 def impl_cfg(maxcalls, slabres):
     return ("SPECIFICATION Spec\nCONSTANTS PatTexts <- MCPats\n Lines <- MCLines\n PatNos = {1,2,3,4,5,6,7,8,9}\n"
             " ICs = {TRUE, FALSE}\n MaxCalls = %d\n SlabRes = %d\n"
-            "INVARIANTS TypeOK Lifetime Disjoint Refines CompileOK IndexOK\nCHECK_DEADLOCK FALSE\n" % (maxcalls, slabres))
+            "INVARIANTS TypeOK NoPanic Lifetime Disjoint Refines CompileOK IndexOK\nCHECK_DEADLOCK FALSE\n" % (maxcalls, slabres))
+
+
+ALL_INV = "TypeOK NoPanic Lifetime Disjoint Refines"
+
+
+def shared_cfg(pats, lines, ics, maxcalls, slabres, workers, sharing, schedule, lazy, invs, props):
+    return ("SPECIFICATION Spec\nCONSTANTS PatTexts <- MCPats\n Lines <- MCLines\n PatNos = %s\n LineNos = %s\n"
+            " ICs = %s\n MaxCalls = %d\n SlabRes = %d\n Workers = %s\n Sharing = \"%s\"\n Schedule = \"%s\"\n Lazy = \"%s\"\n"
+            "%s%sCHECK_DEADLOCK FALSE\n" % (pats, lines, ics, maxcalls, slabres, workers, sharing, schedule, lazy,
+                                          "INVARIANTS %s\n" % invs if invs else "", "PROPERTIES %s\n" % props if props else ""))
+
+
+RACE_PKG = re.compile(r"^\s*rare/pkg/(matchers/dissect|slicepool|matchers)\.")
+
+
+def race_reports(prefix):
+    """data race reports (GORACE log_path=prefix) with a racing access in the dissect / slicepool packages or the
+    matcher factory wrapper: [(function, report text)]"""
+    out = []
+    for fn in sorted(glob.glob(prefix + ".*")):
+        for rep in open(fn, errors="replace").read().split("=================="):
+            if "DATA RACE" not in rep:
+                continue
+            acc = rep.split("Goroutine ")[0]        # the two access stacks, before the creation stacks
+            frames = [l.strip() for l in acc.splitlines() if RACE_PKG.match(l)]
+            if frames:
+                f = re.sub(r"\[.*\]", "[T]", frames[0])
+                f = re.sub(r"\(\)$", "", f).replace("rare/pkg/", "")
+                out.append((f, rep.strip()))
+    return out
 
 
 def pat_s(m):
@@ -30,7 +62,8 @@ def check(run):
     run.assumptions += [
         "domain: every % in a pattern opens a token (%{) and token names contain no %; other pattern texts are accepted with any outcome",
         "ignore-case over non-ASCII pattern or line: only well-formedness and 'case-sensitive match => match' are demanded",
-        "one instance is used by one goroutine at a time (the package documents instances as not thread-safe)",
+        "one instance is used by one goroutine at a time (the package documents instances as not thread-safe); any number of instances of one compiled pattern may be created and used concurrently (matchers.Factory is documented thread-safe)",
+        "a data race reported by the Go race detector with an access in rare/pkg/matchers/dissect or rare/pkg/slicepool (or in the matcher factory wrapper) while instances match concurrently counts as a violation (Go gives no guarantee for the results of a racy program)",
         "B3/B1 bounds: see tlc_runs (MaxTok, MaxSym = exhaustive line length in symbols, MaxSym3 = the same for 3-token patterns)",
     ]
     run.build_harness()
@@ -46,10 +79,33 @@ def check(run):
     cstat = json.loads(p.stdout.strip().splitlines()[-1])
     if tstat["matched"] * 5 < tstat["calls"] or cstat["printed"] < cstat["runs"]:
         raise Inconclusive("B2 generators produce too few matches: %s %s" % (tstat, cstat))
+    # several instances of one compiled pattern at the same time (own goroutines, extractor.New, rare -w N)
+    conc = os.path.join(run.scratch, "c12-conc.ndjson")
+    if quick:
+        cargs = ["-long", 6, "-n", 100000, "-short", 9, "-rounds", 150, "-ext", 3, "-extn", 100000, "-cli", 2, "-clin", 120000]
+    else:
+        cargs = ["-long", 18, "-n", 400000, "-short", 30, "-rounds", 400, "-ext", 8, "-extn", 400000, "-cli", 6, "-clin", 400000]
+    p = run.drv(["conc", "-out", conc, "-rare", rare, "-dir", run.scratch] + cargs, timeout=3000)
+    kstat = json.loads(p.stdout.strip().splitlines()[-1])
+    if kstat["gomaxprocs"] < 4 or kstat["matched"] * 5 < kstat["calls"]:
+        raise Inconclusive("concurrent B2 recording unusable: %s" % kstat)
     alltr = os.path.join(run.scratch, "c12-all.ndjson")
     with open(alltr, "w") as f:
         f.write(open(tr).read())
         f.write(open(cli).read())
+        f.write(open(conc).read())
+
+    # the same scenarios (fewer lines) in the -race build: driver and rare; reports are read below
+    def race_job():
+        pre = os.path.join(run.scratch, "race", "r")
+        os.makedirs(os.path.dirname(pre), exist_ok=True)
+        rrare = run.build_cli(race=True)
+        rargs = ["-long", 3, "-n", 5000, "-short", 3, "-rounds", 25, "-ext", 2, "-extn", 8000, "-cli", 2, "-clin", 20000] if quick else \
+                ["-long", 9, "-n", 30000, "-short", 9, "-rounds", 60, "-ext", 4, "-extn", 40000, "-cli", 4, "-clin", 100000]
+        out = os.path.join(run.scratch, "c12-conc-race.ndjson")
+        pr = run.drv(["conc", "-out", out, "-rare", rrare, "-dir", os.path.dirname(pre)] + rargs, race=True, timeout=3000,
+                     env={"GORACE": "log_path=%s halt_on_error=0 exitcode=0 atexit_sleep_ms=0" % pre})
+        return json.loads(pr.stdout.strip().splitlines()[-1]), race_reports(pre)
 
     # ---- B3 (laws of the specification; refinement of the implementation-shaped model),
     #      B1 generation and B2 validation run side by side (8 TLC workers in total)
@@ -63,23 +119,72 @@ def check(run):
                                label="DissectImpl patterns %s x {cs,ic} MaxCalls=%d SlabRes=%d" % ((pats,) + b))
 
     trace_job = lambda: validate_traces(run, "Dissect_Trace", alltr, invariants=("Final",), xmx="8g", timeout=3000)
+
+    # DissectShared: W instances of one compiled pattern, interleaved step by step.
+    #   ("pass", ...)  must hold;  ("neg", ...) is a negative control: TLC must refute exactly the named property
+    OWN_PROPS = "CompImmutable WritesOwn OwnRefines"
+    def shared_job(kind, label, workers, *cfg, cov=False):
+        def job():
+            r = run.tlc("DissectShared_MC", shared_cfg(*cfg), workers=workers, timeout=3000, coverage=cov,
+                        label="DissectShared %s, Workers=%s%s" % (label, cfg[5], " (negative control: must be refuted)" if kind == "neg" else ""))
+            if kind == "pass":
+                require_clean(run, r, "DissectShared " + label)
+                if cov:
+                    zero = [a for a in ("Call", "Prefix", "GetChk", "GetAlloc", "GetCarve", "GetAdvR", "GetAdvW", "Ret0", "TokStep", "Finish")
+                            if r.coverage.get("DissectShared." + a, (0, 0))[0] == 0]
+                    if zero:
+                        raise Inconclusive("vacuous model: DissectShared actions never taken: %s" % zero)
+            else:
+                want = (cfg[9] or cfg[10]).split()
+                if not r.violated or any(v not in want for v in r.violated):
+                    raise Inconclusive("negative control %s was not refuted as expected (violated=%s)\n%s" % (label, r.violated, r.out[-2000:]))
+            return r
+        return job
+    def neg_jobs(mc, wk="{1,2}", pats="{2,3}"):
+        # one pool shared by all instances, no lock: every one of the four invariants is refuted
+        js = [shared_job("neg", "one pool for all instances, no lock: %s" % inv, 1,
+                         pats, "{1,2}", "{TRUE, FALSE}", mc, 2, wk, "shared", "any", "none", inv, "")
+              for inv in ("Disjoint", "Lifetime", "Refines", "NoPanic")]
+        # literals lowered on first use inside the shared compiled pattern
+        js.append(shared_job("neg", "lazy lowering, flag published first: Refines", 1,
+                             "{7}", "{3,4}", "{TRUE}", mc, 2, wk, "own", "any", "flagfirst", "Refines", ""))
+        js.append(shared_job("neg", "lazy lowering, flag published last: CompImmutable", 1,
+                             "{7}", "{3,4}", "{TRUE}", mc, 2, wk, "own", "any", "flaglast", "", "CompImmutable"))
+        return lambda: [j() for j in js]
     if quick:
-        jobs = [gen("laws", True, (2, 3, 1), 3), gen("dump", True, (3, 3, 1), 3, "8g"),
-                impl_job((3, 2), "{1,2,3,4,5,6,7,8,9}", 1, True), trace_job]
-        laws, dump, impl, (tres, _) = parallel(jobs, 4)
+        sjobs = [shared_job("pass", "own pools, W=2, patterns {2,3} x {cs,ic}, MaxCalls=2, SlabRes=1", 2,
+                            "{2,3}", "{1,2}", "{TRUE, FALSE}", 2, 1, "{1,2}", "own", "any", "none", ALL_INV + " OwnPools", OWN_PROPS, cov=True),
+                 shared_job("pass", "one shared pool, calls never overlap (serial), W=2", 1,
+                            "{2,3}", "{1,2}", "{TRUE, FALSE}", 2, 2, "{1,2}", "shared", "serial", "none", ALL_INV, "CompImmutable")]
+        jobs = [gen("laws", True, (2, 3, 1), 2), gen("dump", True, (3, 3, 1), 3, "8g"),
+                impl_job((3, 2), "{1,2,3,4,5,6,7,8,9}", 1, True), trace_job, race_job, neg_jobs(2)] + sjobs
+        res = parallel(jobs, 6)
+        laws, dump, impl, (tres, _), (rstat, races) = res[:5]
         laws, impl = [laws], [impl]
     else:
+        sjobs = [shared_job("pass", "own pools, W=2, patterns {2,3,5,7} x {cs,ic}, MaxCalls=3", 2,
+                            "{2,3,5,7}", "{1,2,3}", "{TRUE, FALSE}", 3, 2, "{1,2}", "own", "any", "none", ALL_INV + " OwnPools", OWN_PROPS),
+                 shared_job("pass", "own pools, W=3, pattern 2, MaxCalls=2", 2,
+                            "{2}", "{1,2}", "{TRUE, FALSE}", 2, 1, "{1,2,3}", "own", "any", "none", ALL_INV + " OwnPools", OWN_PROPS),
+                 shared_job("pass", "one shared pool, calls never overlap (serial), W=2, MaxCalls=3", 1,
+                            "{2,3}", "{1,2}", "{TRUE, FALSE}", 3, 2, "{1,2}", "shared", "serial", "none", ALL_INV, "CompImmutable"),
+                 shared_job("pass", "one shared pool, Get under a mutex, W=2", 2,
+                            "{2,3}", "{1,2}", "{TRUE, FALSE}", 3, 2, "{1,2}", "locked", "any", "none", ALL_INV, "CompImmutable"),
+                 shared_job("pass", "lazy lowering, flag published last (sequentially consistent model): results still right", 1,
+                            "{7}", "{3,4}", "{TRUE}", 3, 2, "{1,2}", "own", "any", "flaglast", ALL_INV, "")]
         jobs = [gen("dump", False, (3, 4, 2), 2, "10g"), gen("laws", False, (3, 4, 2), 2), trace_job,
                 gen("laws", False, (1, 6, 1), 2),          # every 0/1-token pattern x every line of up to 6 symbols
-                impl_job((4, 2), "{1,2,3,4,5,6,7,8,9}", 2, True), impl_job((5, 3), "{3,5}", 2, False)]
-        dump, l1, (tres, _), l2, i1, i2 = parallel(jobs, 4)
+                impl_job((4, 2), "{1,2,3,4,5,6,7,8,9}", 2, True), impl_job((5, 3), "{3,5}", 2, False),
+                race_job] + sjobs + [neg_jobs(2), neg_jobs(2, "{1,2,3}", "{3,5}")]
+        res = parallel(jobs, 5)
+        dump, l1, (tres, _), l2, i1, i2, (rstat, races) = res[:7]
         laws, impl = [l1, l2], [i1, i2]
     for r in laws:
         require_clean(run, r, "Dissect laws")
     for r in impl:
         require_clean(run, r, "DissectImpl refinement/lifetime")
     impl = impl[0]
-    zero = [a for a, (n, _) in impl.coverage.items() if n == 0 and a.split(".")[1] in ("Call", "Prefix", "TokStep", "Finish")]
+    zero = [a for a, (n, _) in impl.coverage.items() if n == 0 and a.split(".")[1] in ("Call", "Prefix", "GetChk", "GetAlloc", "GetCarve", "GetAdvR", "GetAdvW", "Ret0", "TokStep", "Finish")]
     if zero:
         raise Inconclusive("vacuous model: actions never taken: %s" % zero)
     if dump.violated or dump.errors or not dump.finished:
@@ -111,12 +216,23 @@ def check(run):
                           pat_s(m), b2s(m.get("line") or []), m["got"], m["want"], n), m)
 
     # ---- B2 verdicts
-    ntr = tstat["traces"] + cstat["runs"]
+    ntr = tstat["traces"] + cstat["runs"] + kstat["runs"] + rstat["runs"]
     run.cov["traces_validated_against_impl"] += ntr
-    run.cov["evaluations"] += tstat["calls"]
+    run.cov["evaluations"] += tstat["calls"] + kstat["calls"] + kstat["cli_lines"]
     run.cov["distinct_nontrivial"] += tstat["matched"]
     run.cov["b2"] = {"traces": tstat["traces"], "calls": tstat["calls"], "matched": tstat["matched"],
-                     "cli_runs": cstat["runs"], "cli_lines_printed": cstat["printed"], "events": tres["consumed"]}
+                     "cli_runs": cstat["runs"], "cli_lines_printed": cstat["printed"], "events": tres["consumed"],
+                     "concurrent": kstat, "concurrent_race_build": rstat, "race_reports_in_dissect_or_slicepool": len(races)}
+    # data races between instances of one compiled pattern (DissectShared!Confined / CompImmutable)
+    seen_fn = set()
+    for fn, rep in races:
+        if fn in seen_fn:
+            continue
+        seen_fn.add(fn)
+        run.violation("race:%s" % fn,
+                      "the race detector reports unsynchronised access to shared state while several instances of one "
+                      "compiled dissect pattern match concurrently (%d reports): %s" % (len(races), " | ".join(
+                          l.strip() for l in rep.splitlines()[:4])), rep)
     with open(alltr) as f:
         run.sample({"b2_trace_head": [json.loads(next(f)) for _ in range(3)]})
     lines = None
@@ -124,8 +240,16 @@ def check(run):
         if lines is None:
             lines = open(alltr).read().splitlines()
         ev = json.loads(lines[bad["l"] - 1])
-        if ev["event"] == "cli":
-            kind, head, path = "cli", ev, run.save_replay("cli-%d.json" % bad["t"], ev)
+        if ev["event"] in ("cli", "ccli"):
+            kind, head, path = ev["event"], ev, run.save_replay("cli-%d.json" % bad["t"], ev)
+            if kind == "ccli":
+                kind = "conc:cli"
+                ev = {k: v for k, v in ev.items() if k not in ("lines", "sent")}
+        elif ev["event"] in ("cm", "clate", "ccrash"):
+            sl = trace_slice(alltr, bad["t"])
+            head = json.loads(sl.splitlines()[0])
+            kind = "conc:%s:%s" % (head.get("via", "?"), {"cm": "returned", "clate": "late", "ccrash": "crash"}[ev["event"]])
+            path = run.save_replay("conc-%d.ndjson" % bad["t"], sl)
         else:
             sl = trace_slice(alltr, bad["t"])
             head = json.loads(sl.splitlines()[0])
@@ -137,4 +261,6 @@ def check(run):
                           pat_s(head), json.dumps(ev)[:300]), path)
     run.cov["rule"] = ("B3: all generator patterns x lines within bounds; B1: one (pattern, flag, line) = one case, "
                        "non-trivial = the specification demands a match with at least one capture on a non-empty line; "
-                       "B2: one FindSubmatchIndex call / CLI run each, non-trivial = calls that matched")
+                       "B2: one FindSubmatchIndex call / CLI run each, non-trivial = calls that matched; the concurrent "
+                       "scenarios count one run per goroutine+instance / extractor run / CLI run and every call as an evaluation "
+                       "(compared through the distinct (line, result) pairs observed)")
